@@ -714,5 +714,8 @@ PROPS["C16"]["explanation"] += " (DEADFAIL) no call result is narrowed below the
 PROPS["C20"]["rules"] = PROPS["C20"]["rules"] + [rules_limits.rule_byte_count_product_bounded]
 PROPS["C20"]["explanation"] += " (PRODBOUND) VSread/VSwrite compare the record count with a bound before it is multiplied into the 32-bit byte count."
 
+PROPS["C16"]["rules"] = PROPS["C16"]["rules"] + [rules_errors.rule_fallback_only_when_absent]
+PROPS["C16"]["explanation"] += " (FALLBACK) the SD open path falls back on the old-style reader only when the SD metadata is absent, not when reading it failed."
+
 NOT_APPLICABLE = {}
 
